@@ -468,3 +468,61 @@ func addUpDecoMotif(r *rng, c *ccase) {
 	}
 	c.provs = append([]*cprovider{y, x}, c.provs...)
 }
+
+// editchain: ordinary chains in which some providers are named and some carry ReplaceNamed /
+// InsertBeforeNamed / InsertAfterNamed directives (C18 through the whole pipeline).
+func init() {
+	streams["editchain"] = &stream{gen: func(r *rng) string {
+		c := genChain(r, chainOpts{})
+		addEdits(r, c)
+		return c.encode()
+	}, run: runChain}
+}
+
+func addEdits(r *rng, c *ccase) {
+	var free []*cprovider
+	for _, p := range c.provs {
+		if p.cluster == 0 {
+			free = append(free, p)
+		}
+	}
+	if len(free) < 2 {
+		return
+	}
+	// mostly distinct names on a subset of the providers
+	var names []int
+	next := 0
+	for _, p := range free {
+		if r.chance(1, 2) {
+			next++
+			p.origin = next
+			if len(names) > 0 && r.chance(1, 10) {
+				p.origin = names[r.intn(len(names))] // a run / duplicate of a name
+			}
+			names = append(names, p.origin)
+		}
+	}
+	if len(names) == 0 {
+		return
+	}
+	for k := 1 + r.intn(2); k > 0; k-- {
+		p := free[r.intn(len(free))]
+		target := names[r.intn(len(names))]
+		if r.chance(1, 15) {
+			target = next + 1 // nobody has this name
+		}
+		if p.rep != 0 || p.bef != 0 || p.aft != 0 {
+			if !r.chance(1, 10) {
+				continue // two directives on one provider is an error: rarely
+			}
+		}
+		switch r.intn(3) {
+		case 0:
+			p.rep = target
+		case 1:
+			p.bef = target
+		default:
+			p.aft = target
+		}
+	}
+}
